@@ -561,6 +561,7 @@ def bfs_shard(arg):
     p.count("transitions", res.transitions)
     p.count("merges_validated", res.merges_validated)
     p.count("configurations", 1)
+    p.count("fixpoints_reached", 1 if res.fixpoint and res.states < state_cap else 0)
     p.counters["cfg %s size=%d auto_reload=%s names=%d versions=%d" % (cfg[:3] + (len(cfg[3]), len(cfg[4])))] = (
         f"states={res.states} transitions={res.transitions} "
         f"max_depth={res.max_depth} merges_validated={res.merges_validated} fixpoint={res.fixpoint}")
@@ -724,8 +725,12 @@ def run(ctx: core.Ctx):
         "names_versions": sorted({repr((c[0], c[3], c[4])) for c in cfgs}),
         "cache_sizes": [0, 1, 2, -1], "auto_reload": [True, False], "loader_kinds": list(KINDS),
         "flat_depth": depth, "flat_configurations": [repr(c[:3]) for c in flat_cfgs],
-        "fixpoint_reached": True,
     }
+    import re
+
+    depths = [int(re.search(r"max_depth=(\d+)", v).group(1)) for k, v in ctx.counters.items() if k.startswith("cfg ")]
+    ctx.cov["max_depth"] = max(depths) if depths else 0
+    ctx.cov["fixpoint_reached"] = ctx.counters.get("fixpoints_reached", 0) == len(cfgs)
     ctx.cov["states"] = ctx.counters.get("states", 0)
     ctx.cov["transitions"] = ctx.counters.get("transitions", 0)
     ctx.cov["merges_validated"] = ctx.counters.get("merges_validated", 0)
